@@ -13,7 +13,7 @@
 //	                       Z finish) a chain of scripted filters is registered; the backend is a counting
 //	                       RoundTripper.  (HandleHandshake needs a TLS connection and is not driven.)
 //	                       result: calls=<point+index in call order> out=<responses read back from the client
-//	                       side> backend=<contacts> closed=<0|1> unread=<client bytes never read>
+//	                       side, each `status|X-Src or L=Location|body in hex`> backend=<contacts> closed=<0|1> unread=<client bytes never read>
 package main
 
 import (
@@ -318,8 +318,8 @@ func execSv(n int, chains map[byte][]elem) string {
 		if res.Close {
 			cl = "/close"
 		}
-		_ = body
-		resps = append(resps, fmt.Sprintf("%d/%s%s", res.StatusCode, src, cl))
+		// status | source marker or Location | whole body in hex: the oracle needs the exact bytes of the body
+		resps = append(resps, fmt.Sprintf("%d|%s%s|%s", res.StatusCode, src, cl, vh.Hex(body)))
 	}
 	c := 0
 	if closed {
